@@ -706,6 +706,7 @@ int sim_socketpair(int fds[2]) {
 	return 0;
 }
 size_t sim_unread(int fd) { FdEnt *e = ent(fd); return e && e->s && e->s->in ? e->s->in->avail() : 0; }
+bool sim_connected(int fd) { FdEnt *e = ent(fd); return e && e->s && e->s->state == ST_CONNECTED; }
 size_t sim_unsent_room(int fd) { FdEnt *e = ent(fd); return e && e->s && e->s->out ? e->s->out->room() : 0; }
 void sim_inject_reset(int fd) { FdEnt *e = ent(fd); if (e && e->s && e->s->state == ST_CONNECTED) do_reset(e->s); }
 void sim_set_sockbuf(int fd, size_t cap) { FdEnt *e = ent(fd); if (e && e->s) { e->s->sndbuf = cap; if (e->s->out) e->s->out->cap = cap; } }
